@@ -38,7 +38,11 @@ VARIANTS = {
     'dbg':    dict(cc='gcc', cflags=['-O0', '-g'], ldflags=[]),
     'dbg512': dict(cc='gcc', cflags=['-O0', '-g', '-march=native', '-DAVX512'], ldflags=[]),
     'cov':    dict(cc='gcc', cflags=['-O0', '-g', '--coverage'], ldflags=['--coverage']),
+    'cov512': dict(cc='gcc', cflags=['-O0', '-g', '--coverage', '-march=native', '-DAVX512'], ldflags=['--coverage']),
 }
+# tools/reach.py: VERIF_VARIANT_MAP="rel=cov,asan=cov,avx512=cov512" re-routes a check's workload onto the gcov build
+VARIANT_MAP = dict(kv.split('=') for kv in os.environ.get('VERIF_VARIANT_MAP', '').split(',') if '=' in kv)
+PRUNE_AGE = 4 * 3600   # seconds; a running check re-touches its directory on every build() call
 
 
 def _src_hash(variant):
@@ -62,6 +66,7 @@ def _run(cmd, cwd=None):
 
 def build(variant, prune=True):
     """Return the build directory for `variant`, compiling if needed."""
+    variant = VARIANT_MAP.get(variant, variant)
     v = VARIANTS[variant]
     hsh = _src_hash(variant)
     d = os.path.join(BUILD_ROOT, "%s-%s" % (variant, hsh))
@@ -91,7 +96,7 @@ def build(variant, prune=True):
             open(os.path.join(d, ".done"), 'w').close()
         if prune:
             for other in glob.glob(os.path.join(BUILD_ROOT, variant + "-*")):
-                if other != d and time.time() - os.path.getmtime(other) > 600:
+                if other != d and time.time() - os.path.getmtime(other) > PRUNE_AGE:
                     shutil.rmtree(other, ignore_errors=True)
         os.utime(d)
     finally:
@@ -106,6 +111,7 @@ def asan_runtime():
 
 def env_for(variant, builddir, extra=None):
     """Environment for a worker that should import the working tree's rebound against `variant`."""
+    variant = VARIANT_MAP.get(variant, variant)
     e = dict(os.environ)
     deps = os.path.join(VERIF, '.deps')
     e['PYTHONPATH'] = os.pathsep.join([builddir, VERIF, deps])
@@ -127,6 +133,7 @@ def env_for(variant, builddir, extra=None):
 
 def cdriver(name, variant, sources, extra_flags=(), libs=()):
     """Compile a C driver from /verif/cdrv against the variant's static library. Returns the binary path."""
+    variant = VARIANT_MAP.get(variant, variant)
     d = build(variant)
     v = VARIANTS[variant]
     h = hashlib.sha256()
